@@ -752,6 +752,37 @@ def S05(p):
             yield "in-return", ap
 
 
+@op("S05b", "TERNARY_FBIDDEN")
+def S05b(p):
+    # a conditional expression as an initialiser: enumerator, global, static/const local
+    for i, ln in enumerate(p.lines):
+        if ln.kind in ("enumerator", "global", "decl") and vwidth(ln.text) <= 64:
+            ks = [k for k, x in enumerate(ln.lex) if "init" in x.tags]
+            if not ks and ln.kind == "enumerator":
+                def ape(q, i=i):
+                    lex = q.lines[i].lex
+                    end = len(lex)
+                    while end > 0 and lex[end - 1].k == "comma":
+                        end -= 1
+                    lex[end:end] = [SP(), Lx("=", "op"), SP(), Lx("(", "par"), Lx("ZZ_C", "id"), SP(), Lx("?", "op"), SP(), Lx("1", "num"), SP(), Lx(":", "op"), SP(),
+                                    Lx("2", "num"), Lx(")", "par")]
+                    return i
+                yield "enumerator", ape
+                continue
+            if not ks or ln.lex[ks[0] + 2].t in ("{", '"') or ln.lex[ks[0] + 2].k == "str":
+                continue
+
+            def ap(q, i=i, k=ks[0]):
+                lex = q.lines[i].lex
+                end = len(lex)
+                while end > 0 and lex[end - 1].k in ("semi", "comma"):
+                    end -= 1
+                lex.insert(end, Lx(")", "par"))
+                lex[k + 2:k + 2] = [Lx("(", "par"), Lx("ZZ_C", "id"), SP(), Lx("?", "op"), SP(), Lx("1", "num"), SP(), Lx(":", "op"), SP()]
+                return i
+            yield ln.kind, ap
+
+
 @op("S06", "ASSIGN_IN_CONTROL", ("c",))
 def S06(p):
     for i, ln in _ctrl_lines(p):
@@ -883,6 +914,8 @@ def O02a(p):
                     continue
                 if ln.lex[k].t in ("+", "-") and nxt.k == "num":
                     continue
+                if (ln.lex[k].t + nxt.t[:1]) in ("/*", "//", "--", "++", "&&", "||", "<<", ">>", "->") or (ln.lex[k].t[-1:] + nxt.t[:1]) in ("/*", "//"):
+                    continue   # gluing would spell another token (a comment opener, ++ ...), i.e. another program
 
                 def ap(q, i=i, k=k):
                     del q.lines[i].lex[k + 1]
